@@ -56,8 +56,9 @@ type MapV struct {
 // MapData is the memory content of a map object.
 type MapData struct {
 	Typ  *types.Map
-	Keys []Val // concrete keys (StrV conc or const *Term)
+	Keys []Val // keys (concrete, or symbolic scalar terms)
 	Vals []Val
+	Pres []*Term // presence condition per entry (nil entry = present)
 }
 
 type FuncV struct {
@@ -303,6 +304,17 @@ func (e *Exec) mergeVal(c *Term, a, b Val) Val {
 	}
 	if _, ok := b.(*Poison); ok {
 		return b
+	}
+	if _, ok := a.(*IfaceIte); ok {
+		switch b.(type) {
+		case *IfaceIte, *IfaceV:
+			return &IfaceIte{C: c, A: a, B: b}
+		}
+	}
+	if _, ok := b.(*IfaceIte); ok {
+		if _, ok := a.(*IfaceV); ok {
+			return &IfaceIte{C: c, A: a, B: b}
+		}
 	}
 	switch x := a.(type) {
 	case *Term:
